@@ -35,12 +35,18 @@ def run(ctx):
         print(json.dumps({"expected": obj["expected"], "observed": o, "gotypes": r.get("gotypes"), "fail": r.get("fail")}))
         if r.get("err"):
             return 2
+        if obj.get("kind") == "implements_multi":
+            got = None if r.get("fail") else sorted([c, list(m)] for c, m in gen_impl.observed_all(r["diags"]))
+            if got != [[c, list(m)] for c, m in obj["expected"]]:
+                print("VIOLATION property=C05 replay=%s" % ctx.replay)
+                return 1
+            return 0
         if r.get("fail") or [o[0], list(o[1])] != [obj["expected"][0], list(obj["expected"][1])]:
             print("VIOLATION property=C05 replay=%s" % ctx.replay)
             return 1
         return 0
     thorough = ctx.tier == "thorough"
-    for dev, fam in (("StringMatch", "param"), ("RecvOfOrigin", "mset"), ("CurrentPkgName", "qual"), ("SharedImports", "qual"), ("OwnPkgLookup", "sealed"), ("PathElemBinds", "qual")):
+    for dev, fam in (("StringMatch", "param"), ("RecvOfOrigin", "mset"), ("CurrentPkgName", "qual"), ("SharedImports", "qual"), ("OwnPkgLookup", "sealed"), ("PathElemBinds", "qual"), ("DropTypeAfterUnbound", "multi")):
         r = ctx.tlc("Implements", cfg(fam, emit=False, dev='{"%s"}' % dev, live=False), label="c05_dev_" + dev, allow_violation=True, count=False)
         if r["violated"] is None:
             raise vlib.ToolError("deviation %s violates nothing: vacuous" % dev)
@@ -53,10 +59,33 @@ def run(ctx):
     zero = [a for lab, cov in ctx.coverage.items() for a, n in cov.items() if n == 0 and not a.endswith("Finished")]
     if zero:
         raise vlib.ToolError("vacuous actions: %s" % zero)
-    res = proglib.run_vh(ctx, [it[0] for it in items])
+    # two annotations on one type: judged one by one (sets of verdicts)
+    multi_items = []
+    scs, r = progcheck.tlc_scenarios(ctx, "Implements", cfg("multi"), "c05_multi")
+    for i, sc in enumerate(scs):
+        prog, exp = gen_impl.build_impl(sc, "C05_multi_%d" % i)
+        eset = {(c, tuple(sorted(m))) for c, m in ((sc["code"], sc["missing"]), (sc["code2"], sc["missing2"])) if c != "none"}
+        multi_items.append((prog, eset, sc))
+    res = proglib.run_vh(ctx, [it[0] for it in items] + [it[0] for it in multi_items])
     nrun = nontrivial = model_checked = 0
     samples = []
     bad = []
+    for prog, eset, sc in multi_items:
+        r = res[prog["id"]]
+        nrun += 1
+        nontrivial += 1 if eset else 0
+        if r.get("err"):
+            raise vlib.ToolError("generated program does not load: %s %s" % (r["err"][:400], sc["sc"]))
+        got = None if r.get("fail") else gen_impl.observed_all(r["diags"])
+        if got != eset:
+            r2 = proglib.run_vh(ctx, [prog])[prog["id"]]
+            got2 = None if r2.get("fail") else gen_impl.observed_all(r2["diags"])
+            if got2 == eset:
+                raise vlib.ToolError("mismatch did not reproduce: %s" % sc["sc"])
+            if len(ctx.violations) < 3:
+                ctx.violation("type T with two @implements lines (%s; second = %s): each annotation is judged on its own, expected %s, the tool reports %s"
+                              % ({k: sc["sc"][k] for k in ("qual", "cptr", "recv")}, sc["sc"]["second"], sorted(eset), sorted(got2) if got2 is not None else r2.get("fail", "")[:200]),
+                              {"kind": "implements_multi", "program": prog, "expected": sorted(eset), "observed": sorted(got2) if got2 is not None else None, "scenario": sc["sc"]})
     for prog, exp, sc in items:
         r = res[prog["id"]]
         nrun += 1
@@ -134,6 +163,22 @@ def run(ctx):
                 if (r.get("fail") or (o[0], o[1]) != (exp[0], exp[1])) and len(ctx.violations) < 3:
                     ctx.violation("%s driver: expected %s %s, observed %s %s" % (drv, exp[0], list(exp[1]), list(o[:2]), (r.get("fail") or "")[:200]),
                                   {"kind": "implements", "program": prog, "expected": [exp[0], list(exp[1])], "observed": list(o), "scenario": sc["sc"], "driver": drv})
+    if len(ctx.violations) < 3:
+        # implementers of one interface in both type-checking universes of a package with tests (plain / test variant)
+        uprog, uexp = gen_impl.universes_program()
+        for c in (None, {"scan_tests": "true"}):
+            for drv in ("binary", "vet"):
+                for rep in range(3 if drv == "binary" else 1):
+                    p2 = dict(uprog)
+                    p2["id"] = "%s_%s_%d" % (uprog["id"], drv, rep)
+                    r = proglib.run_binary(ctx, p2, cfg=c) if drv == "binary" else proglib.run_vet(ctx, p2, cfg=c)
+                    nreal += 1
+                    got = {k for k in proglib.keyset(proglib.dedup(r.get("diags") or [])) if k[2].startswith("IMPL")}
+                    if (r.get("fail") or got != uexp) and len(ctx.violations) < 3:
+                        ctx.violation("package with tests (plain and test variant analysed in one run), %s driver, configuration %s: expected %s, observed %s %s"
+                                      % (drv, c, sorted(uexp), sorted(got), (r.get("fail") or "")[:200]),
+                                      {"kind": "universes", "program": uprog, "expected": sorted(uexp), "observed": sorted(got), "driver": drv, "cfg": c})
+                        break
     return ctx.finish("model_checking", {
         "traces_validated_against_impl": nrun + nreal,
         "samples": samples,
